@@ -50,6 +50,8 @@ def main():
             rs = _g.glob(os.path.join(seed, "seed_*.rs"))
             if rs:
                 demo = "mkdir -p tests && cp SEED_OUT/%s/seed_*.rs tests/ && %s" % (sid, demo)
+        if "tests/" in demo and "mkdir" not in demo:
+            demo = "mkdir -p tests && " + demo
         rc0, out0 = sh(demo, cwd=wt)
         rec["demo_pristine"] = {"cmd": demo, "rc": rc0, "tail": out0[-600:]}
         rc, out = sh("git apply SEED_OUT/%s/patch.diff" % sid, cwd=wt)
